@@ -130,12 +130,22 @@ Definition copy_region {E} (r : region) (src dst : tensor E) : tensor E :=
 
 (* ------------------------------------------------------------------ shards *)
 (* a saved shard: Shard(offsets, sizes, tensor=TensorEntry(location, byte_range)) and the tensor its payload
-   deserialises to;  [s_key] is the canonicalised (location, byte_range) *)
-Record sshard (E : Type) := mkS { s_box : box; s_key : list Z; s_data : tensor E }.
+   deserialises to.  [s_loc] is the id of the location string (the harness numbers the locations of one entry by
+   first occurrence), [s_br] the byte range: [] for None, [lo; hi] otherwise.  [s_key] = [loc; lo; hi] ([loc] when
+   there is no byte range) is the canonical form of the pair (location, byte_range): two saved shards denote the
+   same stored bytes iff their s_key agree. *)
+Record sshard (E : Type) := mkS { s_box : box; s_loc : Z; s_br : list Z; s_data : tensor E }.
 (* a destination (local) shard of obj_out; a dense tensor is one box at the origin *)
 Record dshard (E : Type) := mkD { d_box : box; d_data : tensor E }.
-Arguments mkS {E}. Arguments s_box {E}. Arguments s_key {E}. Arguments s_data {E}.
+Arguments mkS {E}. Arguments s_box {E}. Arguments s_loc {E}. Arguments s_br {E}. Arguments s_data {E}.
 Arguments mkD {E}. Arguments d_box {E}. Arguments d_data {E}.
+
+Definition s_key {E} (s : sshard E) : list Z := s_loc s :: s_br s.
+
+(* a dictionary key computed from a saved shard's (location, byte_range_tuple), encoded as a list of integers;
+   [key_pair] is the encoding of the Python tuple (location, byte_range_tuple) *)
+Definition keyfn := Z -> list Z -> list Z.
+Definition key_pair : keyfn := fun location byte_range_tuple => location :: byte_range_tuple.
 
 Definition dense_box (shape : list Z) : box := mkBox (zeros shape) shape.
 
@@ -161,35 +171,43 @@ Definition indexed {A} (l : list A) := indexed_from 0 l.
 Definition key_eqb (a b : list Z) : bool := list_eqb Z.eqb a b.
 
 (* path_byte_range_to_overlapping_regions, flattened in insertion order:
-   for local_shard, shard in itertools.product(local_shards, entry.shards): if overlap: dict[key].append(..) *)
-Definition regions_keyed {E} (shards : list (sshard E)) (dboxes : list box) : list (list Z * (Z * region)) :=
+   for local_shard, shard in itertools.product(local_shards, entry.shards): if overlap: dict[kins shard].append(..)
+   [kins] is the key expression of the insertion site (a function of the shard's location and byte range) *)
+Definition regions_keyed {E} (kins : keyfn) (shards : list (sshard E)) (dboxes : list box)
+  : list (list Z * (Z * region)) :=
   flat_map (fun id =>
     flat_map (fun s =>
       if overlaps (snd id) (s_box s)
-      then [(s_key s, (fst id, overlap_region (s_box s) (snd id)))] else [])
+      then [(kins (s_loc s) (s_br s), (fst id, overlap_region (s_box s) (snd id)))] else [])
       shards)
     (indexed dboxes).
 
-Definition regions_for (key : list Z) (rs : list (list Z * (Z * region))) : list (Z * region) :=
+Definition regions_for {R} (key : list Z) (rs : list (list Z * R)) : list R :=
   map snd (filter (fun kr => key_eqb (fst kr) key) rs).
+(* key in dict *)
+Definition key_mem {R} (key : list Z) (rs : list (list Z * R)) : bool :=
+  existsb (fun kr => key_eqb (fst kr) key) rs.
 
-(* read_reqs: for shard in entry.shards: if key not in dict: continue; ReadReq(consumer(dict[key], shard.tensor)).
-   A request = (index of the saved shard in the entry, the saved shard its consumer deserialises, its regions) *)
-Definition read_reqs_full {E} (shards : list (sshard E)) (dboxes : list box)
+(* read_reqs: for shard in entry.shards: if kmem shard not in dict: continue; ReadReq(consumer(dict[kget shard], shard.tensor)).
+   [kmem]/[kget] are the key expressions of the membership test and of the lookup.  A request = (index of the saved
+   shard in the entry, the saved shard its consumer deserialises, its regions).  (A defaultdict holds a key iff
+   something was appended under it.) *)
+Definition read_reqs_full {E} (kins kmem kget : keyfn) (shards : list (sshard E)) (dboxes : list box)
   : list (Z * sshard E * list (Z * region)) :=
-  let rs := regions_keyed shards dboxes in
+  let rs := regions_keyed kins shards dboxes in
   flat_map (fun js =>
-    match regions_for (s_key (snd js)) rs with
+    match regions_for (kmem (s_loc (snd js)) (s_br (snd js))) rs with
     | [] => []
-    | l => [(fst js, snd js, l)]
+    | _ => [(fst js, snd js, regions_for (kget (s_loc (snd js)) (s_br (snd js))) rs)]
     end) (indexed shards).
 
-Definition read_reqs {E} (shards : list (sshard E)) (dboxes : list box) : list (Z * list (Z * region)) :=
-  map (fun q => (fst (fst q), snd q)) (read_reqs_full shards dboxes).
+Definition read_reqs {E} (kins kmem kget : keyfn) (shards : list (sshard E)) (dboxes : list box)
+  : list (Z * list (Z * region)) :=
+  map (fun q => (fst (fst q), snd q)) (read_reqs_full kins kmem kget shards dboxes).
 
 (* indices (in entry order) of the saved shards that are read *)
-Definition read_plan {E} (shards : list (sshard E)) (dboxes : list box) : list Z :=
-  map fst (read_reqs shards dboxes).
+Definition read_plan {E} (kins kmem kget : keyfn) (shards : list (sshard E)) (dboxes : list box) : list Z :=
+  map fst (read_reqs kins kmem kget shards dboxes).
 
 (* the regions a saved shard has with the destination shards, in destination order *)
 Definition own_regions (sb : box) (dboxes : list box) : list (Z * region) :=
@@ -208,9 +226,51 @@ Fixpoint upd_nth {A} (l : list A) (k : nat) (f : A -> A) : list A :=
 Definition consume {E} (src : tensor E) (rs : list (Z * region)) (ts : list (tensor E)) : list (tensor E) :=
   fold_left (fun ts ir => upd_nth ts (Z.to_nat (fst ir)) (copy_region (snd ir) src)) rs ts.
 
-Definition load_grouped {E} (shards : list (sshard E)) (dsts : list (dshard E)) : list (tensor E) :=
+Definition load_grouped {E} (kins kmem kget : keyfn) (shards : list (sshard E)) (dsts : list (dshard E))
+  : list (tensor E) :=
   fold_left (fun ts q => consume (s_data (snd (fst q))) (snd q) ts)
-            (read_reqs_full shards (map d_box dsts)) (map d_data dsts).
+            (read_reqs_full kins kmem kget shards (map d_box dsts)) (map d_data dsts).
+
+(* ------------------------------------------------------------------ vocabulary of the generated terms *)
+(* gen/ReshardGen.v (written by translator/gen_reshard.py from the source on every run) is phrased with the
+   definitions of this file plus the following. *)
+
+(* zip(a, b, c, d): stops at the shortest list *)
+Fixpoint zip4 (a b c d : list Z) : list (Z * Z * Z * Z) :=
+  match a, b, c, d with
+  | x :: a', y :: b', z :: c', w :: d' => (x, y, z, w) :: zip4 a' b' c' d'
+  | _, _, _, _ => []
+  end.
+
+(* the overlap region as the code builds it: (dim, saved offset, current offset, length) per dimension *)
+Definition region4 := list (Z * Z * Z * Z).
+Definition drop_dims (r : region4) : region := map (fun t => (snd (fst (fst t)), snd (fst t), snd t)) r.
+Definition dims_of (r : region4) : list Z := map (fun t => fst (fst (fst t))) r.
+
+(* a region with its dimension numbers 0, 1, 2, ... attached *)
+Definition with_dims (r : region) : region4 :=
+  map (fun ir => (fst ir, fst (fst (snd ir)), snd (fst (snd ir)), snd (snd ir))) (indexed r).
+
+(* A view of a tensor = (offset vector into the base tensor, shape).  torch.narrow(view, dim, start, length)
+   moves the offset of [dim] by [start] and sets its extent to [length] (runtime behaviour, modelled). *)
+Definition view := (list Z * list Z)%type.
+Definition full_view (shape : list Z) : view := (zeros shape, shape).
+Definition vnarrow (v : view) (dim start length : Z) : view :=
+  let k := Z.to_nat dim in (upd (fst v) k (nth k (fst v) 0 + start), upd (snd v) k length).
+
+(* tensor_copy(dst_view, src_view) = dst_view.copy_(src_view): every element of the destination view is assigned
+   the element of the source view at the same view coordinate *)
+Definition copy_views {E} (src_view dst_view : view) (src dst : tensor E) : tensor E :=
+  fold_left (fun t c => tset t (vadd (fst dst_view) c) (src (vadd (fst src_view) c))) (coords (snd dst_view)) dst.
+
+(* A ReadReq as prepare_read builds it: (path, byte_range, (index of the saved shard whose TensorEntry the consumer
+   holds, that shard, the consumer's regions: index of the destination tensor + region)) *)
+Definition greq (E : Type) := (Z * list Z * (Z * sshard E * list (Z * region4)))%type.
+
+(* the storage as the read pipeline sees it: the payload stored under (path, byte_range) is that of the saved
+   shard with that location and byte range *)
+Definition fetch {E} (shards : list (sshard E)) (path : Z) (byte_range : list Z) : option (sshard E) :=
+  find (fun s => key_eqb (s_key s) (path :: byte_range)) shards.
 
 (* ------------------------------------------------------------------ global shape, both implementations *)
 Definition corner (b : box) : list Z := vadd (boff b) (bsz b).
@@ -300,8 +360,9 @@ Definition obs_region (x : (list Z * list Z) * (list Z * list Z)) : val :=
 (* element ids: E := Z *)
 Definition mk_d (x : (list Z * list Z) * list Z) : dshard Z :=
   mkD (mkBox (fst (fst x)) (snd (fst x))) (rs_of_list (snd (fst x)) (snd x) (-1)).
+(* ((offsets, sizes), key, ids) with key = [location id; lo; hi] / [location id] *)
 Definition mk_s (x : ((list Z * list Z) * list Z) * list Z) : sshard Z :=
-  mkS (mkBox (fst (fst (fst x))) (snd (fst (fst x)))) (snd (fst x))
+  mkS (mkBox (fst (fst (fst x))) (snd (fst (fst x)))) (hd 0 (snd (fst x))) (tl (snd (fst x)))
       (rs_of_list (snd (fst (fst x))) (snd x) (-1)).
 
 (* prepare_write: input (dim, esize, max bytes, local shards with row-major ids);
@@ -323,8 +384,8 @@ Definition obs_read (x : list (((list Z * list Z) * list Z) * list Z) * list ((l
   let dsts := map mk_d (snd x) in
   let fin (ts : list (tensor Z)) :=
       VL (map (fun dt => vlistZ (rs_to_list (bsz (d_box (fst dt))) (snd dt))) (combine dsts ts)) in
-  VL [obs_reqs (read_reqs shards (map d_box dsts));
-      fin (load_grouped shards dsts);
+  VL [obs_reqs (read_reqs key_pair key_pair key_pair shards (map d_box dsts));
+      fin (load_grouped key_pair key_pair key_pair shards dsts);
       fin (load shards dsts);
       vopt vlistZ (global_shape (map s_box shards));
       vopt vlistZ (tensor_shape (map s_box shards))].
